@@ -45,9 +45,10 @@ type c10Case struct {
 	Src     c10File  `json:"src"`
 	Tgt     c10File  `json:"tgt"`
 	Third   *c10File `json:"third,omitempty"`
-	Item    string   `json:"item"`    // func | var | stmt | local
-	Uses    int      `json:"uses"`    // bit set of dependencies used by the item
-	History string   `json:"history"` // single | chain | two | back
+	Item    string   `json:"item"`            // func | var | stmt | local
+	Uses    int      `json:"uses"`            // bit set of dependencies used by the item
+	History string   `json:"history"`         // single | chain | two | back | clone | reuse
+	Clash   bool     `json:"clash,omitempty"` // the target dot-imports a package exporting the names of dependency 0
 }
 
 func c10World(extra map[string]string) *oracle.World {
@@ -55,6 +56,8 @@ func c10World(extra map[string]string) *oracle.World {
 	for i, p := range c10Paths {
 		src[p] = fmt.Sprintf("package %s\n\ntype T%d struct{}\n\nfunc F%d() {}\n\nvar V%d int\n", c10Names[i], i, i, i)
 	}
+	// exports the names of dependency 0 as well: only ever dot-imported by a target (Clash)
+	src["q.r/z"] = "package z\n\ntype T0 struct{}\n\nfunc F0() {}\n\nvar V0 int\n\nfunc Z9() {}\n"
 	for k, v := range extra {
 		src[k] = v
 	}
@@ -149,10 +152,21 @@ func c10SourceText(cs c10Case) string {
 	return b.String()
 }
 
-func c10TargetText(f c10File, pkgName string) string {
+func c10TargetText(f c10File, pkgName string, clash bool) string {
 	var b strings.Builder
-	b.WriteString(c10Header(f, pkgName))
-	b.WriteString("func keepTgt() {\n" + c10Body(f, usedSet(f), "k") + "}\n\nfunc slot() {\n}\n")
+	h := c10Header(f, pkgName)
+	extra := ""
+	if clash {
+		// a dot-imported package that also exports F0/T0/V0: harmless unless dependency 0 ends up dot-imported too
+		if strings.Contains(h, "import (") {
+			h = strings.Replace(h, "import (\n", "import (\n\t. \"q.r/z\"\n", 1)
+		} else {
+			h += "import . \"q.r/z\"\n\n"
+		}
+		extra = "\tZ9()\n"
+	}
+	b.WriteString(h)
+	b.WriteString("func keepTgt() {\n" + extra + c10Body(f, usedSet(f), "k") + "}\n\nfunc slot() {\n}\n")
 	return b.String()
 }
 
@@ -163,7 +177,7 @@ func init() {
 		ID:    "C10",
 		Level: "model_checking",
 		Rule: "typed worlds: three dependencies (two named x, one whose name differs from its path); source file with import style per dependency in {plain, alias, dot} x moved item {function, function also using a source-local function (ResolveLocalPath), variable, statement} using each non-empty subset of the dependencies " +
-			"x target file (same or another package) with style per dependency in {absent, plain, alias, dot, alias equal to the package name of another dependency} x histories {single move, chain through a third file, two items, move back, move a Clone}; only type-correct source/target files are in the quantifier; decoration with the types-based resolver, restoration with an exact package-name map; " +
+			"x target file (same or another package; optionally dot-importing a further package that exports the same names as the first dependency) with style per dependency in {absent, plain, alias, dot, alias equal to the package name of another dependency} x histories {single move, chain through a third file, two items, move back, move a Clone, and (same package) the target restored by a FileRestorer that restored the source file first}; only type-correct source/target files are in the quantifier; decoration with the types-based resolver, restoration with an exact package-name map; " +
 			"oracle: the restored target type-checks and every moved identifier denotes the object of the same package path and name; state = (source styles, target styles, item, uses, history); non-trivial = every state",
 		Assumptions: []string{"go/types of this toolchain is the acceptance oracle", "no declaration of the generated targets shadows an import name (the property's proviso)"},
 		Units: func(tier string) []string {
@@ -208,28 +222,33 @@ func runC10(ctx *core.Ctx, unit int) {
 				for uses := 1; uses < 8; uses++ {
 					hists := []string{"single"}
 					if uses == 7 || ctx.Thorough() {
-						hists = []string{"single", "chain", "two", "back", "clone"}
+						hists = []string{"single", "chain", "two", "back", "clone", "reuse"}
 					}
 					for _, h := range hists {
-						if ctx.Expired() {
-							ctx.Cut("targets")
-							return
-						}
-						cs := c10Case{Src: src, Tgt: tgt, Item: item, Uses: uses, History: h}
-						if h == "chain" {
-							third := c10File{Pkg: "m/third", Prefix: "u", Styles: [3]int{tgt.Styles[2], tgt.Styles[0], tgt.Styles[1]}}
-							cs.Third = &third
-						}
-						o, applicable := c10Check(cs)
-						if !applicable {
-							ctx.Count("excluded: source or target file not type-correct (e.g. both x packages imported plainly)", 1)
-							continue
-						}
-						ctx.CountState(true)
-						ctx.R.Transitions++
-						ctx.Eval(cs, o)
-						if uses == 5 && t == 27 && item == "func" {
-							ctx.Sample(cs)
+						for _, clash := range []bool{false, true} {
+							if ctx.Expired() {
+								ctx.Cut("targets")
+								return
+							}
+							if clash && (uses&1 == 0 || tgt.Styles[0] == 3 || h != "single" && h != "reuse") {
+								continue
+							}
+							cs := c10Case{Src: src, Tgt: tgt, Item: item, Uses: uses, History: h, Clash: clash}
+							if h == "chain" {
+								third := c10File{Pkg: "m/third", Prefix: "u", Styles: [3]int{tgt.Styles[2], tgt.Styles[0], tgt.Styles[1]}}
+								cs.Third = &third
+							}
+							o, applicable := c10Check(cs)
+							if !applicable {
+								ctx.Count("excluded: source or target file not type-correct (e.g. both x packages imported plainly)", 1)
+								continue
+							}
+							ctx.CountState(true)
+							ctx.R.Transitions++
+							ctx.Eval(cs, o)
+							if uses == 5 && t == 27 && item == "func" {
+								ctx.Sample(cs)
+							}
 						}
 					}
 				}
@@ -311,7 +330,7 @@ func c10Check(cs c10Case) (core.Outcome, bool) {
 		return core.Outcome{Key: key, Desc: string(b) + "\n" + fmt.Sprintf(f, a...)}, true
 	}
 	srcText := c10SourceText(cs)
-	tgtText := c10TargetText(cs.Tgt, pkgNameOf(cs.Tgt.Pkg))
+	tgtText := c10TargetText(cs.Tgt, pkgNameOf(cs.Tgt.Pkg), cs.Clash)
 	if cs.Tgt.Pkg == c10SrcPath {
 		tgtText = strings.Replace(tgtText, "func keepTgt", "func keepTgt2", 1)
 	}
@@ -326,7 +345,7 @@ func c10Check(cs c10Case) (core.Outcome, bool) {
 	if err != nil {
 		return core.Outcome{OK: true}, false
 	}
-	names := map[string]string{c10SrcPath: "src", c10TgtPath: "tgt", "m/third": "third"}
+	names := map[string]string{c10SrcPath: "src", c10TgtPath: "tgt", "m/third": "third", "q.r/z": "z"}
 	for i, p := range c10Paths {
 		names[p] = c10Names[i]
 	}
@@ -351,7 +370,7 @@ func c10Check(cs c10Case) (core.Outcome, bool) {
 	expectRefs = perItem
 	switch cs.History {
 	case "chain":
-		third, err := c10Load(w, cs.Third.Pkg, c10TargetText(*cs.Third, "third"), false)
+		third, err := c10Load(w, cs.Third.Pkg, c10TargetText(*cs.Third, "third", false), false)
 		if err != nil {
 			return core.Outcome{OK: true}, false
 		}
@@ -383,7 +402,25 @@ func c10Check(cs c10Case) (core.Outcome, bool) {
 	}
 	r := decorator.NewRestorerWithImports(finalPath, simple.New(names))
 	var buf bytes.Buffer
-	if p := guard(func() { err = r.Fprint(&buf, final) }); p != "" {
+	printFinal := func() error { return r.Fprint(&buf, final) }
+	if cs.History == "reuse" {
+		// one FileRestorer for the files of a package (what Package.Save could do): the other file first
+		fr := r.FileRestorer()
+		other := src.file
+		if final == src.file {
+			other = tgt.file
+		}
+		printFinal = func() error {
+			var sink bytes.Buffer
+			if finalPath == c10SrcPath || cs.Tgt.Pkg == c10SrcPath {
+				if e := fr.Fprint(&sink, other); e != nil {
+					return e
+				}
+			}
+			return fr.Fprint(&buf, final)
+		}
+	}
+	if p := guard(func() { err = printFinal() }); p != "" {
 		return fail("restore-panic:"+short(p, 60), "restoring the target panicked: %s", p)
 	}
 	if err != nil {
